@@ -36,7 +36,7 @@ theorem rtInt32_mapCols (f : Nat → Nat) (tys tys' : List Ty) (e : Expr)
     simp only [mapCols, rtInt32]
     exact rtInt32Results_mapCols f tys tys' parts (fun i hi => h i (by simp [cols, hi]))
   | .not _ | .and _ _ | .or _ _ | .cmp _ _ _ | .arith _ _ _ | .like _ _ _ | .isNull _ _ | .between _ _ _ _
-  | .inList _ _ _ => simp [mapCols, rtInt32]
+  | .inList _ _ _ | .strFn _ _ | .concat _ _ => simp [mapCols, rtInt32]
 theorem rtInt32Results_mapCols (f : Nat → Nat) (tys tys' : List Ty) (es : List Expr)
     (h : ∀ i ∈ colsList es, tys'.getD (f i) .bigint = tys.getD i .bigint) :
     rtInt32Results tys' (mapColsList f es) = rtInt32Results tys es := by
@@ -93,6 +93,13 @@ theorem eval_mapCols (f : Nat → Nat) (tys tys' : List Ty) (row row' : Row) (e 
   | .isNull n a =>
     have ha := eval_mapCols f tys tys' row row' a (fun i hi => h i (by simpa [cols] using hi))
     simp [mapCols, eval, ha]
+  | .strFn g a =>
+    have ha := eval_mapCols f tys tys' row row' a (fun i hi => h i (by simpa [cols] using hi))
+    simp [mapCols, eval, ha]
+  | .concat a b =>
+    have ha := eval_mapCols f tys tys' row row' a (fun i hi => h i (by simp [cols, hi]))
+    have hb := eval_mapCols f tys tys' row row' b (fun i hi => h i (by simp [cols, hi]))
+    simp [mapCols, eval, ha, hb]
   | .between n a lo hi =>
     have ha := eval_mapCols f tys tys' row row' a (fun i hi => h i (by simp [cols, hi]))
     have hl := eval_mapCols f tys tys' row row' lo (fun i hi => h i (by simp [cols, hi]))
@@ -163,8 +170,9 @@ mutual
 theorem mapCols_id (e : Expr) : mapCols (fun i => i) e = e := by
   match e with
   | .lit _ | .col _ => simp [mapCols]
-  | .not a | .neg a | .pos a | .isNull _ a => simp [mapCols, mapCols_id a]
-  | .and a b | .or a b | .cmp _ a b | .arith _ a b | .like _ a b => simp [mapCols, mapCols_id a, mapCols_id b]
+  | .not a | .neg a | .pos a | .isNull _ a | .strFn _ a => simp [mapCols, mapCols_id a]
+  | .and a b | .or a b | .cmp _ a b | .arith _ a b | .like _ a b | .concat a b =>
+    simp [mapCols, mapCols_id a, mapCols_id b]
   | .between _ a b c => simp [mapCols, mapCols_id a, mapCols_id b, mapCols_id c]
   | .inList _ a xs => simp [mapCols, mapCols_id a, mapColsList_id xs]
   | .caseWhen parts => simp [mapCols, mapColsList_id parts]
@@ -202,7 +210,7 @@ theorem holds_conjuncts (tys : List Ty) (r : Row) : ∀ (e : Expr), holds tys e 
     rw [holds_and, holds_conjuncts tys r a, holds_conjuncts tys r b]
     simp [conjuncts, List.all_append]
   | .lit _ | .col _ | .not _ | .neg _ | .pos _ | .or _ _ | .cmp _ _ _ | .arith _ _ _ | .like _ _ _ | .isNull _ _
-  | .between _ _ _ _ | .inList _ _ _ | .caseWhen _ | .caseOf _ _ => by simp [conjuncts]
+  | .between _ _ _ _ | .inList _ _ _ | .caseWhen _ | .caseOf _ _ | .strFn _ _ | .concat _ _ => by simp [conjuncts]
 
 theorem holds_foldl_and (tys : List Ty) (r : Row) (ps : List Expr) (acc : Expr) :
     holds tys (ps.foldl (fun a q => Expr.and a q) acc) r = (holds tys acc r && ps.all (holds tys · r)) := by
@@ -928,7 +936,7 @@ theorem conjuncts_cols : ∀ (e0 e : Expr), e ∈ conjuncts e0 → ∀ i ∈ col
   | .lit _, e, he, i, hi | .col _, e, he, i, hi | .not _, e, he, i, hi | .neg _, e, he, i, hi | .pos _, e, he, i, hi
   | .or _ _, e, he, i, hi | .cmp _ _ _, e, he, i, hi | .arith _ _ _, e, he, i, hi | .like _ _ _, e, he, i, hi
   | .isNull _ _, e, he, i, hi | .between _ _ _ _, e, he, i, hi | .inList _ _ _, e, he, i, hi
-  | .caseWhen _, e, he, i, hi | .caseOf _ _, e, he, i, hi => by
+  | .caseWhen _, e, he, i, hi | .caseOf _ _, e, he, i, hi | .strFn _ _, e, he, i, hi | .concat _ _, e, he, i, hi => by
     simp only [conjuncts, List.mem_singleton] at he
     subst he
     exact hi
